@@ -42,3 +42,5 @@ known("C03", "commit-atomicity/(*store.Store).commit/vs-(*mhprimary.primaryGC).r
       "KF-3b: same window, writer = primary-GC relocation (primary Put of the copy + index re-point between commit's primary flush and index flush); crash => the relocated key, present at the last completed flush, reads absent (second test in repro/kf3_put_between_flushes_test.go.txt)")
 known("C03", "gc-handover-durable/(*primaryGC).gc/index-flushed-before-handover",
       "KF-4: a primary-GC cycle hands the freelist over (ToGC flushes the freelist pool itself) and marks the superseded record deleted although the index update that superseded it is not flushed: Put(K,v1); Flush; Put(K,v2); GC; crash (directory copy) => reopen: on-disk index names the deleted v1 record, Get(K) absent although K was present at the last completed flush and never removed (repro/kf4_gc_applies_freelist_before_index_flush_test.go.txt; sequential, no concurrency). Repair needs the collector to flush the index first (a store-level commit callback: API change) or to hand over only durable entries, which in turn needs KF-2's compare-and-swap to stay safe")
+fixed("C14", "3945bb2", "fc-list-nonnil/(*filecache.FileCache).removeOldest/(*container/list.List).Back",
+      "D14: FileCache.removeOldest dereferenced the nil LRU list; SetCacheSize(smaller, non-zero) on a cache that has cached nothing yet (freshly opened store, Store.SetFileCacheSize) or after Clear panicked (repro/d14_setcachesize_nil_list_test.go.txt)")
